@@ -31,10 +31,8 @@ impl UnicodeWidthChar for char {
 
     #[inline]
     fn width_cjk(self) -> Option<usize> {
-        match self {
-            '\u{e9}' => Some(2),
-            _ => self.width(),
-        }
+        // U+00E9 is not East Asian Ambiguous; U+0301 is a combining mark: same as width() on the alphabet
+        self.width()
     }
 }
 
